@@ -56,12 +56,63 @@ func c40Load() {
 	sort.Strings(c40Files)
 }
 
+// c40Related: files that root imports (transitively, one level of importers too).
+func c40Related(root string) []string {
+	set := map[string]bool{}
+	var walk func(p string, d int)
+	walk = func(p string, d int) {
+		fp := c40Protos[p]
+		if fp == nil || d > 3 {
+			return
+		}
+		for _, dep := range fp.GetDependency() {
+			if c40Protos[dep] != nil && !set[dep] {
+				set[dep] = true
+				walk(dep, d+1)
+			}
+		}
+	}
+	walk(root, 0)
+	direct := map[string]bool{}
+	if fp := c40Protos[root]; fp != nil {
+		for _, dep := range fp.GetDependency() {
+			direct[dep] = true
+		}
+	}
+	for _, p := range c40Files {
+		for _, dep := range c40Protos[p].GetDependency() {
+			// importers of root, and siblings: files importing something root imports too
+			if dep == root || (direct[dep] && dep != "google/protobuf/go_features.proto" && dep != "google/protobuf/descriptor.proto") {
+				set[p] = true
+			}
+		}
+	}
+	delete(set, root)
+	var out []string
+	for p := range set {
+		out = append(out, p)
+	}
+	sort.Strings(out)
+	return out
+}
+
 func (c40) Gen(r *sim.Rng, tier string) *scn.Scn {
 	c40Load()
 	s := &scn.Scn{P: map[string]int64{}}
 	n := r.Range(1, 4)
 	for i := 0; i < n; i++ {
 		s.Objects = append(s.Objects, scn.Object{Type: "file", Note: c40Files[r.Intn(len(c40Files))]})
+	}
+	if r.Chance(2, 3) {
+		// related files: a file together with files it imports / that import it
+		// (state shared between files of one run shows only when they refer to the same packages)
+		root := c40Files[r.Intn(len(c40Files))]
+		rel := c40Related(root)
+		s.Objects = s.Objects[:0]
+		s.Objects = append(s.Objects, scn.Object{Type: "file", Note: root})
+		for i := 0; i < n && len(rel) > 0; i++ {
+			s.Objects = append(s.Objects, scn.Object{Type: "file", Note: rel[r.Intn(len(rel))]})
+		}
 	}
 	var params []string
 	switch r.Intn(4) {
@@ -92,10 +143,24 @@ func (c40) Gen(r *sim.Rng, tier string) *scn.Scn {
 		f := s.Objects[0].Note
 		params = append(params, "apilevelM"+f+"=API_OPAQUE")
 	}
+	if r.Chance(1, 2) {
+		// import paths that share a base name: every file of the closure is
+		// remapped to example.test/<n>/pb, so package-name disambiguation is needed
+		var fs []string
+		for _, o := range s.Objects {
+			fs = append(fs, o.Note)
+		}
+		req := c40Request(&scn.Scn{}, fs)
+		for i, pf := range req.ProtoFile {
+			if r.Chance(7, 8) {
+				params = append(params, fmt.Sprintf("M%s=example.test/p%d/pb", pf.GetName(), i))
+			}
+		}
+	}
 	s.Mode = strings.Join(params, ",")
 	s.P["perm"] = int64(r.U64() >> 1)
-	s.P["children"] = int64(r.Range(2, 3))
-	s.P["seeds"] = 8
+	s.P["children"] = 2
+	s.P["seeds"] = int64(r.Range(3, 8))
 	return s
 }
 
@@ -239,6 +304,12 @@ func (c40) Run(s *scn.Scn, x *sim.Exec) {
 			r1 := &pluginpb.CodeGeneratorResponse{}
 			proto.Unmarshal(ref, r1)
 			a, b := respSet(r1), respSet(resp2)
+			if r1.GetError() != "" || resp2.GetError() != "" {
+				// a run that fails reports the first failing file in request order;
+				// the permutation clause speaks about generated files, not about which error comes first
+				x.Probe("permutations-skipped-(error-responses)", 1)
+				a, b = nil, nil
+			}
 			if len(a) != len(b) {
 				x.Fail("response-depends-on-request-order", "requesting %v instead of %v yields %d instead of %d generated files", perm, files, len(b)-1, len(a)-1)
 				return
